@@ -26,6 +26,16 @@ class Plan:
         return self.cfgs_quick if tier == "quick" else self.cfgs_thorough
 
 
+PAIR_ONLY = ("from_array", "clone_from", "eq", "cmp", "partial_cmp", "eq_slice")
+
+
+def no_pair(fam):
+    """the family without the operations that are only wired for the 16-byte tracked type"""
+    def f(c, N, sz):
+        return [o for o in fam(c, N, sz) if (o if isinstance(o, str) else o[0]).split(" ")[0] not in PAIR_ONLY]
+    return f
+
+
 def Ns(tier, q, t):
     return q if tier == "quick" else t
 
@@ -131,6 +141,10 @@ class C01(Plan):
                          40 if tier == "quick" else 200)
         wide_cases(g, WIDE_E, "mut", every=(8 if tier == "quick" else 1))
         wide_cases(g, WIDE_U8, "io", elem="u8", suffix=(), every=(4 if tier == "quick" else 1))
+        # the same families with a 96-byte element type (code paths gated on size_of::<T>())
+        for fam in (fam_push, fam_pop, fam_index1, fam_swap, fam_bulk, fam_mut_views):
+            g.one_step(Ns(tier, [0, 1, 2, 3, 4], [0, 1, 2, 3, 4, 5, 6]), [3], fam, elem="B")
+        wide_cases(g, [9, 13, 17, 33, 100], "mut", elem="B", every=(8 if tier == "quick" else 1))
         return g.cases
 
 
@@ -188,6 +202,9 @@ class C03(Plan):
         random_histories(g, tier, 60 if tier == "quick" else 2000, [4, 5, 6, 7, 8, 16, 64],
                          40 if tier == "quick" else 200)
         wide_cases(g, WIDE_E, "mut", junk=4, every=(16 if tier == "quick" else 2))
+        for fam in (fam_push, fam_pop, fam_index1, fam_bulk):
+            g.one_step(Ns(tier, [0, 1, 2, 3, 4], [0, 1, 2, 3, 4, 5, 6]), [4], fam, elem="B")
+        wide_cases(g, [9, 13, 17, 33, 100], "mut", elem="B", junk=4, every=(16 if tier == "quick" else 2))
         return g.cases
 
 
@@ -320,6 +337,9 @@ class C05(Plan):
         for k in (0, 1, 4, 9):
             wide_cases(g, WIDE_E[::2], "mut", junk=4, fault="drop:%d" % k, suffix=("push_back 9001:5", "pop_front", "new"),
                        layouts_per_n=3, every=(24 if tier == "quick" else 4))
+        for k in (0, 1, 2, 3):
+            g.one_step([2, 3, 4], [4], no_pair(fam_destroying), fault="drop:%d" % k, elem="B",
+                       suffix=("push_back 9001:5", "pop_front", "new"))
         return g.cases
 
     def oracle_op(self, c, k, optext, rec, p):
@@ -385,6 +405,10 @@ class C06(Plan):
             for k in (0, 1, 4, 9):
                 wide_cases(g, WIDE_E[::2], "mut", junk=4, fault="%s:%d" % (kind, k), suffix=("push_back 9001:5", "pop_front", "new"),
                            layouts_per_n=3, every=(60 if tier == "quick" else 8))
+        for kind in ("clone", "call", "next"):
+            for k in (0, 1, 2, 3):
+                g.one_step([2, 3, 4], [4], no_pair(fam_usercode(kind)), fault="%s:%d" % (kind, k), elem="B",
+                           suffix=("push_back 9001:5", "pop_front", "new"))
         return g.cases
 
     def oracle_op(self, c, k, optext, rec, p):
@@ -412,6 +436,10 @@ class C07(Plan):
         g.one_step(Ns(tier, [0, 1, 2, 3, 4], [0, 1, 2, 3, 4, 5]), [3],
                    lambda c, N, sz: ["range %s %s %s" % (sb, eb, ",".join("n" * (sz + 1))) for (sb, eb, a, b) in all_ranges(sz)])
         wide_cases(g, WIDE_E, "view", every=(4 if tier == "quick" else 1))
+        g.one_step(Ns(tier, [0, 1, 2, 3, 4], [0, 1, 2, 3, 4, 5, 6]), [3], fam_accessors, elem="B")
+        g.one_step(Ns(tier, [0, 1, 2, 3, 4], [0, 1, 2, 3, 4, 5, 6]), [3], fam_mut_views, elem="B")
+        g.one_step(Ns(tier, [0, 1, 2, 3, 4], [0, 1, 2, 3, 4, 5, 6]), [3], lambda c, N, sz: [["make_contiguous -", "as_slices", "iter " + ",".join("n" * (sz + 1))]], elem="B")
+        wide_cases(g, [9, 13, 17, 33, 100], "view", elem="B", every=(6 if tier == "quick" else 1))
         return g.cases
 
     def oracle_op(self, c, k, optext, rec, p):
@@ -458,6 +486,9 @@ class C09(Plan):
                                                                     ",".join(("nb" * L)[:L]) or "-"],
                                               ranges=all_ranges(sz, with_invalid=False)))
         wide_cases(g, WIDE_E, "drain", junk=4, every=(3 if tier == "quick" else 1))
+        g.one_step(Ns(tier, [1, 2, 3, 4], [1, 2, 3, 4, 5, 6]), [4],
+                   lambda c, N, sz: fam_drain(c, N, sz, scripts_shapes, ranges=all_ranges(sz, with_invalid=False)), elem="B")
+        wide_cases(g, [9, 13, 17, 33, 100], "drain", elem="B", junk=4, every=(4 if tier == "quick" else 1))
         return g.cases
 
 
@@ -746,6 +777,8 @@ class C18(Plan):
                            suffix=("push_back 9001:5", "new"))
         random_histories(g, tier, 40 if tier == "quick" else 1000, [3, 4, 5, 8, 16], 40)
         wide_cases(g, WIDE_E, "all", every=(16 if tier == "quick" else 3))
+        for fam in (fam_push, fam_pop, fam_index1, fam_bulk, fam_accessors, fam_mut_views):
+            g.one_step([0, 1, 2, 3], [3], fam, elem="B")
         return g.cases
 
     def cross_cfg(self, results):
@@ -855,6 +888,8 @@ class C20(Plan):
             return out
         g.one_step(ns, [3], fam, suffix=())
         wide_cases(g, WIDE_E, "mut", suffix=(), every=(6 if tier == "quick" else 1))
+        g.one_step(Ns(tier, [1, 2, 3, 4, 5], [1, 2, 3, 4, 5, 6, 7, 8]), [3], fam, suffix=(), elem="B")
+        wide_cases(g, [9, 13, 17, 33, 100], "mut", elem="B", suffix=(), every=(6 if tier == "quick" else 1))
         return g.cases
 
     def oracle_op(self, c, k, optext, rec, p):
